@@ -296,10 +296,13 @@ def r03_5(ctx: Ctx) -> None:
     qual = "merge_over_origin"
     func = ctx.fn(CP, qual)
     sorts = [c for c in calls(func) if last_attr(c) == "sort" and kwarg(c, "key") is not None]
-    overlaps = [c for c in calls(func) if call_name(c) == "locations_overlap" and enclosing_loops(c, stop=func)]
-    if len(sorts) != 1 or len(overlaps) != 1:
-        raise AnalysisError(f"{qual}: expected one keyed sort and one overlap test in the sweep "
-                            f"(found {len(sorts)}, {len(overlaps)})")
+    sweeps = [n for n in walk_local(func) if isinstance(n, ast.For) and isinstance(n.iter, ast.Subscript)
+              and isinstance(n.iter.slice, ast.Slice) and txt(n.iter.slice.lower) == "1" and n.iter.slice.upper is None
+              and any(call_name(c) == "locations_overlap" for c in calls(n))]
+    overlaps = [c for sweep in sweeps for c in calls(sweep) if call_name(c) == "locations_overlap"]
+    if len(sorts) != 1 or len(sweeps) != 1 or len(overlaps) != 1:
+        raise AnalysisError(f"{qual}: expected one keyed sort and one sweep with one overlap test "
+                            f"(found {len(sorts)}, {len(sweeps)}, {len(overlaps)})")
     key = kwarg(sorts[0], "key")
     test = overlaps[0]
     # which tuple slot holds the running previous interval used by the overlap test?
@@ -335,6 +338,55 @@ def r03_5(ctx: Ctx) -> None:
                 ctx.ob("R03.5", CP, call, qual, f"extended interval {stmt_key(call)}", ok,
                        "the interval paired with a protocluster in the sweep is its core extended by the cutoff",
                        form=txt(par))
+
+
+def r03_7(ctx: Ctx, rule: str = "R03.7") -> None:
+    """ the cutoff-extended cores lie on a circle: an interval that crosses the origin sorts first (its start is 0) while
+        its pre-origin part reaches the clusters that sort last; a sweep over neighbours in sorted order has to be closed
+        by comparing the last element with the first """
+    qual = "merge_over_origin"
+    func = ctx.fn(CP, qual)
+    sweeps = [n for n in walk_local(func) if isinstance(n, ast.For) and isinstance(n.iter, ast.Subscript)
+              and isinstance(n.iter.slice, ast.Slice) and txt(n.iter.slice.lower) == "1" and n.iter.slice.upper is None
+              and any(call_name(c) == "locations_overlap" for c in calls(n))]
+    if len(sweeps) != 1:
+        raise AnalysisError(f"{qual}: the sorted sweep was not found")
+    sweep = sweeps[0]
+    # the accumulator of the sweep: the list whose last element is replaced / appended to inside it
+    accs = {txt(c.func.value) for c in calls(sweep) if last_attr(c) == "append" and isinstance(c.func, ast.Attribute)}
+    accs |= {txt(t.value) for n in walk_local(sweep) if isinstance(n, ast.Assign) for t in n.targets
+             if isinstance(t, ast.Subscript) and txt(t.slice) == "-1"}
+    if len(accs) != 1:
+        ctx.cannot(rule, CP, sweep, qual, "closing comparison", f"cannot identify the sweep's accumulator: {sorted(accs)}")
+        return
+    acc = accs.pop()
+    origin_of = {}
+    for node in walk_local(func):
+        if isinstance(node, ast.Assign) and isinstance(node.value, ast.Subscript) and txt(node.value.value) == acc \
+                and txt(node.value.slice) in ("0", "-1"):
+            for target in node.targets:
+                for name in [n.id for n in ast.walk(target) if isinstance(n, ast.Name)]:
+                    origin_of[name] = txt(node.value.slice)
+    closing = []
+    for call in calls(func):
+        if call_name(call) != "locations_overlap" or any(call is c for c in calls(sweep)):
+            continue
+        ends = set()
+        for arg in call.args:
+            for node in ast.walk(arg):
+                if isinstance(node, ast.Name) and node.id in origin_of:
+                    ends.add(origin_of[node.id])
+                if isinstance(node, ast.Subscript) and txt(node.value) == acc and txt(node.slice) in ("0", "-1"):
+                    ends.add(txt(node.slice))
+        if ends == {"0", "-1"}:
+            closing.append(call)
+    after = [c for c in closing if getattr(c, "lineno", 0) > getattr(sweep, "end_lineno", 0)]
+    ctx.ob(rule, CP, after[0] if after else sweep, qual, "closing comparison", bool(after),
+           "after the sweep over the sorted, cutoff-extended cores the last group is compared with the first (and merged), "
+           "because an extended core that crosses the origin sorts first while reaching the clusters that sort last",
+           detail="" if after else "no overlap test between the first and the last element of the swept list: an anchoring gene "
+                                   "that itself spans the origin is never joined with a cluster just before the origin",
+           form=txt(after[0])[:120] if after else "")
 
 
 WRAP_SCOPE = ["antismash/common/hmm_rule_parser/cluster_prediction.py", "antismash/common/hmm_rule_parser/rule_parser.py",
@@ -392,3 +444,5 @@ def run(ctx: Ctx) -> None:
     r03_5(ctx)
     ctx.rule("R03.6", "distances used by detection are wrap-aware", floor=4)
     r03_6(ctx)
+    ctx.rule("R03.7", "the sorted sweep over circular intervals is closed by a last/first comparison", floor=1)
+    r03_7(ctx)
